@@ -1,6 +1,8 @@
 import CJ.Drv.Loop
-/-! Driver for C18 (stub until the models are written). -/
+import CJ.Drv.Liveness
+/-! Driver for C18: the liveness-cache model. -/
 open CJ.Drv
 
 def main : IO Unit := runDriver fun
+  | "cache" :: args => Liveness.handle args
   | _ => none
